@@ -66,6 +66,7 @@ THEOREMS = [
     "IrVerif.Path.C10_world_chdir_opens",
     "IrVerif.Path.C10_bytes_location",
     "IrVerif.Path.C10_pathmax_verified_partial",
+    "IrVerif.Path.C10_pathmax_safe",
 ]
 ASSUMPTIONS = [
     "POSIX only: os.path.normcase is the identity; Windows/ntpath behaviour is not modelled",
@@ -79,8 +80,13 @@ ASSUMPTIONS = [
     "os.lstat/os.stat/os.path.realpath on fixed and random trees; the theorems about safe opens use the model WITHOUT PATH_MAX in "
     "os.lstat / os.stat (PATH_MAX at the open only), which is exact on trees without names of PATH_MAX bytes or more; PATH_MAX at "
     "every path operation is a second model (readP / checkContainmentP: an entry os.path.realpath cannot lstat is a non-link, "
-    "D451) compared with the real code on trees whose resolved names are PATH_MAX - 2 .. 5600 bytes long, with the partial theorem "
-    "C10_pathmax_verified_partial (ASCII byte counts; NAME_MAX as 'no such entry')",
+    "D451) compared with the real code on trees whose resolved names are PATH_MAX - 2 .. 5600 bytes long and on relative spellings "
+    "with ~1270 leading '..' (D453), and with the plain model on the ordinary trees; for it C10_pathmax_safe proves the safe open "
+    "from the repaired cross-check (samestat + fixed points, D451 / D452 / D453) under the hypothesis that the two answers of "
+    "os.path.realpath are link-free (decidable; evaluated on every case where the check passes and the file is read, published as "
+    "pathmax_linkfree=*; 100% hold on the repaired code) - that a fixed point of the blind realpath which the kernel resolves is "
+    "link-free is NOT proved (C10_pathmax_verified_partial states what the cross-check gives without it); ASCII byte counts; "
+    "NAME_MAX as 'no such entry'",
     "os.getcwd() names a chain of real directories (true on POSIX); theorems about safe opens assume the recursion bound of "
     "os.path.realpath is at least the kernel's symlink bound; C10_fuel_discharged shows that every such bound gives the outcome of "
     "the kernel's bound itself (hypothesis, evaluated per generated case and published as fuel_hypothesis=*: the location is "
@@ -718,9 +724,20 @@ def _work_body(part, job: dict) -> dict:
     reqs = [{"m": "path.reads", "fs": fs_json(desc), "cwd": sp["cwd"], "kfuel": KFUEL, "fuel": PFUEL, "queries": queries}]
     if job.get("fuelcmp"):
         reqs.append({"m": "path.reads", "fs": fs_json(desc), "cwd": sp["cwd"], "kfuel": KFUEL, "fuel": KFUEL, "queries": queries})
+    if job.get("fuelcmp"):
+        # the model with PATH_MAX at every path operation on the same cases (tofile semantics): on trees without long names it
+        # must agree with the plain model, and the hypothesis of C10_pathmax_safe (link-free answers) must hold where it reads
+        reqs.append({"m": "path.readsP", "fs": fs_json(desc), "cwd": sp["cwd"], "kfuel": KFUEL, "fuel": PFUEL, "queries": [q[:4] for q in queries]})
     both = lean_batch(reqs)
     outs = both[0]
     outs_k = both[1] if len(both) > 1 else {"r": []}
+    outs_p = both[2] if len(both) > 2 else {"r": []}
+    if "r" in outs and "r" in outs_p:
+        for (case, obs), o1, op in zip(obs_list, outs["r"], outs_p["r"]):
+            if op["r"] == "ok" and sp["base"] != "":
+                part.count("pathmax_linkfree=" + ("holds" if op.get("lf") else "FAILS"))
+            if case["ep"].startswith("tofile") and (o1["r"], o1.get("bytes"), o1["v"], o1["opened"]) != (op["r"], op.get("bytes"), op["v"], op["opened"]):
+                part.disagree("the model with PATH_MAX at every path operation differs from the plain model on a tree without long names", case, o1, op)
     if "r" not in outs or "r" not in outs_k:
         part.disagree("model error", {"sp": sp}, outs, None)
         return part
@@ -1234,7 +1251,8 @@ FILE_SITES = {
     ("_core.py", "ExternalTensor._load", "mmap.mmap"): (1, "entry:openMap", "maps the descriptor opened by the line above (no path of its own)"),
     ("_core.py", "ExternalTensor.tofile", "open"): (1, "entry:openCopy", "with open(self.path, 'rb') as src  (body tofile = [check, openCopy])"),
     ("_core.py", "ExternalTensor.tofile", "getattr:copy_file_range"): (1, "entry:openCopy", "kernel copy FROM the descriptor opened by the line above"),
-    ("_core.py", "ExternalTensor._check_path_containment", "os.path.realpath"): (2, "check", "check 2: realpath(base_dir), realpath(path)"),
+    ("_core.py", "ExternalTensor._check_path_containment", "os.path.realpath"): (4, "check", "check 2: realpath(base_dir), realpath(path); check 3: both answers must be "
+                                                                                 "fixed points: realpath(path_real), realpath(base_real) (D453)"),
     ("_core.py", "ExternalTensor._check_path_containment", "os.stat"): (4, "check", "check 3: stat(path) for st_nlink / S_ISREG, and the samestat cross-check of "
                                                                         "os.path.realpath against the kernel: stat(path_real), stat(base_dir), stat(base_real) (D451 / D452); metadata only"),
     ("_core.py", "Tensor.tofile", ".tofile"): (1, "not-derived", "numpy ndarray.tofile(file): WRITES an in-memory array to the caller's file object"),
@@ -2554,6 +2572,8 @@ def pathmax_cases(ctx: Ctx, only: str | None = None) -> None:
                 ctx.disagree("model error (pathmax)", {"shape": shape}, mo, None)
                 continue
             for (case, obs), o in zip(obs_l, mo["r"]):
+                if o["r"] == "ok":  # hypothesis of C10_pathmax_safe on the cases where the check passes and the file is read
+                    ctx.count("pathmax_linkfree=" + ("holds" if o.get("lf") else "FAILS"))
                 compare(ctx, {**case, "cwd": cwd}, {k_: v_ for k_, v_ in obs.items() if k_ != "own_opens"}, o, {}, R)
                 if (o.get("opened") is None) != (obs["own_opens"] == 0):
                     ctx.disagree("open / no open of the tensor's path differs (pathmax)", case, o, {"r": obs["r"], "own_opens": obs["own_opens"]})
